@@ -330,6 +330,22 @@ def fn_to_sympy(
         return None
 
 
+def _handle_test(node: ast.expr, ctx: Context) -> Any:
+    """Translate the test of an if statement or conditional expression.
+
+    Only comparisons (and what is built from them) are conditions. The truth
+    value of a number (`if x:`) has no counterpart as a Piecewise condition.
+    """
+    condition = _handle_expr(node, ctx)
+    if isinstance(condition, bool) or (
+        isinstance(condition, sympy.logic.boolalg.Boolean)
+        and not isinstance(condition, sympy.Symbol)
+    ):
+        return condition
+    msg = "Only comparisons can be used as a condition"
+    raise NotImplementedError(msg)
+
+
 def _always_returns(body: list[ast.stmt]) -> bool:
     """Whether every path through the statements ends in a return."""
     for node in body:
@@ -381,7 +397,7 @@ def _handle_fn_body(body: list[ast.stmt], ctx: Context) -> sympy.Expr | None:
         node = remaining_body.pop(0)
 
         if isinstance(node, ast.If):
-            condition = _handle_expr(node.test, ctx)
+            condition = _handle_test(node.test, ctx)
             _check_branch(node.body, remaining_body)
             # Each branch works on its own copy of the symbol table: what it
             # assigns must not be visible on the paths that do not take it
@@ -554,7 +570,7 @@ def _handle_expr(node: ast.expr, ctx: Context) -> sympy.Expr | None:
 
     # Handle conditional expressions (ternary operators)
     if isinstance(node, ast.IfExp):
-        condition = _handle_expr(node.test, ctx)
+        condition = _handle_test(node.test, ctx)
         if_true = _handle_expr(node.body, ctx)
         if_false = _handle_expr(node.orelse, ctx)
         return sympy.Piecewise((if_true, condition), (if_false, True))
